@@ -152,11 +152,9 @@ impl FileRunner {
                             for m in msgs {
                                 let m = m.into_record();
                                 if let Some(dst) = self.target_file.as_mut() {
-                                    if let OutputStreamMessageRecord::Entry(e) = m {
-                                        if let Some(custom_str) = e.custom {
-                                            dst.write_all(custom_str.as_ref()).await.unwrap();
-                                            dst.write_all(b"\n").await.unwrap();
-                                        }
+                                    if let OutputStreamMessageRecord::Entry(LogEntry { custom: Some(custom_str), .. }) = &m {
+                                        dst.write_all(custom_str.as_ref()).await.unwrap();
+                                        dst.write_all(b"\n").await.unwrap();
                                     } else {
                                         match self.config.format {
                                             Format::Csv => {
